@@ -3,5 +3,5 @@
 
 def run(rep, repo, tier):
     import c02_life
-    rep.explanation = c02_life.EXPLANATION
+    rep.explanation = 'Lifetime rules only (developer driver).'
     c02_life.run_life(rep, repo, tier)
